@@ -104,6 +104,51 @@ def gen_matrix(rng, npix, nmodes, cplx, density, quarter):
     return M + 0.0      # no negative zeros
 
 
+TYPES = ['bool', 'int8', 'int64', 'float32', 'float64', 'complex128']     # narrow -> wide
+
+
+def cast(a, t):
+    """`a` (float or complex values) as an array of dtype `t`; the values must survive exactly."""
+    a = np.asarray(a)
+    out = a.astype(complex) if t == 'complex128' else np.real(a).astype(t)
+    if out.shape != a.shape or not np.array_equal(out, a):
+        raise MachineryError('value not representable in dtype %s' % t)
+    return out
+
+
+def promoted(coltypes, fallback):
+    return np.result_type(*[np.dtype(t) for t in coltypes]) if coltypes else np.dtype(fallback)
+
+
+def gen_typed_matrix(rng, npix, nmodes, density, narrow_first):
+    """A matrix whose columns (modes) have individual dtypes: bool masks, integer, single/double
+    floats, complex.  Returns (values as float64/complex128, list of dtype names)."""
+    types = [str(rng.choice(TYPES, p=[0.15, 0.1, 0.15, 0.1, 0.3, 0.2])) for _ in range(nmodes)]
+    if narrow_first:
+        types.sort(key=TYPES.index)
+        if nmodes >= 2 and types[0] == types[-1]:
+            types[-1] = 'complex128' if types[0] != 'complex128' else 'complex128'
+            types[0] = str(rng.choice(['bool', 'int64', 'float64'])) if types[-1] == 'complex128' else types[0]
+    cols = []
+    for t in types:
+        mask = rng.random(npix) < density
+        if t == 'bool':
+            v = np.ones(npix)
+        elif t in ('int8', 'int64'):
+            v = (rng.integers(1, 5, size=npix) * rng.choice([-1, 1], size=npix)).astype(float)
+        elif t in ('float32', 'float64'):
+            v = (rng.integers(1, 8, size=npix) * rng.choice([-1, 1], size=npix)).astype(float) / float(rng.choice([2, 4]))
+        else:
+            v = rng.integers(-4, 5, size=npix).astype(float) / 2.0 + 1j * (rng.integers(1, 4, size=npix) * rng.choice([-1, 1], size=npix)).astype(float) / float(rng.choice([1, 2]))
+        cols.append(v * mask + 0.0)
+    if nmodes == 0:
+        return np.zeros((npix, 0)), []
+    M = np.stack(cols, axis=-1)
+    if not any(t == 'complex128' for t in types):
+        M = np.real(M)
+    return M + 0.0, types
+
+
 def gen_vec(rng, n, cplx):
     v = rng.integers(-8, 9, size=n).astype(float) / float(rng.choice([1, 2, 4]))
     if cplx:
@@ -214,7 +259,8 @@ def gen_basis_case(rng, big):
         npix = 3
     cplx = bool(rng.random() < 0.3)
     style = str(rng.choice(['any', 'any', 'tall', 'sparse', 'onemode', 'nomodes']))
-    mats = {}
+    mats, coltypes = {}, {}
+    typed = bool(rng.random() < 0.45)      # modes with individual dtypes (bool / int / float32 / float64 / complex)
     for name in ('A', 'B'):
         nm = int(rng.choice([0, 1, 1, 2, 2, 3, 3, 4, 5]))
         dens = float(rng.choice([0.0, 0.3, 0.6, 0.6, 1.0]))
@@ -228,19 +274,23 @@ def gen_basis_case(rng, big):
                 nm = 1
             elif style == 'nomodes':
                 nm = 0
-        mats[name] = gen_matrix(rng, npix, nm, cplx and (name == 'A' or rng.random() < 0.5), dens,
-                                quarter=bool(rng.random() < 0.3))
+        if typed:
+            mats[name], coltypes[name] = gen_typed_matrix(rng, npix, nm, max(dens, 0.5) if name == 'A' else dens,
+                                                          narrow_first=bool(rng.random() < 0.6))
+        else:
+            mats[name] = gen_matrix(rng, npix, nm, cplx and (name == 'A' or rng.random() < 0.5), dens,
+                                    quarter=bool(rng.random() < 0.3))
     grid = bool(npix > 0 and rng.random() < 0.5)
     bases = []
     forms = list(FORMS_A)
     rng.shuffle(forms)
     nforms = int(rng.integers(4, 9))
     for k, form in enumerate(forms[:nforms]):
-        bases.append(make_base_spec(rng, 'a%d' % k, 'A', mats['A'], form, grid))
+        bases.append(make_base_spec(rng, 'a%d' % k, 'A', mats['A'], form, grid, coltypes.get('A')))
     for k in range(2):
-        bases.append(make_base_spec(rng, 'b%d' % k, 'B', mats['B'], str(rng.choice(FORMS_A)), grid))
+        bases.append(make_base_spec(rng, 'b%d' % k, 'B', mats['B'], str(rng.choice(FORMS_A)), grid, coltypes.get('B')))
     case = {'type': 'basis', 'npix': npix, 'grid': grid, 'style': style,
-            'mats': {k: enc_arr(v) for k, v in mats.items()}, 'bases': bases, 'ops': []}
+            'mats': {k: enc_arr(v) for k, v in mats.items()}, 'coltypes': coltypes, 'bases': bases, 'ops': []}
     # the program: names and their mode counts are tracked so that operands exist
     nm = {b['name']: mats[b['mat']].shape[1] for b in bases if b is not None}
     cpx = {b['name']: np.iscomplexobj(mats[b['mat']]) for b in bases}
@@ -267,8 +317,11 @@ def gen_basis_case(rng, big):
             case['ops'].append({'op': op, 'a': src, 'b': other, 'dst': dst})
             nm[dst] = nm[src] + nm[other]; cpx[dst] = cpx[src] or cpx[other]; names.append(dst)
         elif r < 0.74:
-            case['ops'].append({'op': 'append', 'src': src, 'dst': dst, 'v': enc_arr(gen_vec(rng, npix, cpx[src] and bool(rng.random() < 0.5)))})
-            nm[dst] = nm[src] + 1; cpx[dst] = cpx[src]; names.append(dst)
+            vc = bool(rng.random() < (0.5 if cpx[src] else 0.25))     # a complex mode may join a real basis
+            v = gen_vec(rng, npix, vc)
+            vt = 'complex128' if vc else ('int64' if typed and np.all(v == np.round(v)) else 'float64')
+            case['ops'].append({'op': 'append', 'src': src, 'dst': dst, 'v': enc_arr(v), 'vt': vt})
+            nm[dst] = nm[src] + 1; cpx[dst] = cpx[src] or vc; names.append(dst)
         elif r < 0.84:
             op = str(rng.choice(['tosparse', 'todense']))
             case['ops'].append({'op': op, 'src': src, 'dst': dst})
@@ -300,20 +353,23 @@ def gen_lstsq_case(rng):
                       {'name': 'a1', 'mat': 'A', 'form': 'csr', 'grid_arg': False}], 'ops': ops}
 
 
-def make_base_spec(rng, name, mat, M, form, grid):
+def make_base_spec(rng, name, mat, M, form, grid, coltypes=None):
     spec = {'name': name, 'mat': mat, 'form': form}
+    plain = coltypes is None or all(t in ('float64', 'complex128') for t in coltypes)
     if form in ('fields', 'tuple', 'rows') and M.shape[1] == 0:
         spec['form'] = form = 'dense'      # a list of modes needs at least one mode
     if form == 'csc':
-        ip, ix, d = raw_csc(rng, M, messy=bool(rng.random() < 0.5))
+        ip, ix, d = raw_csc(rng, M, messy=bool(plain and rng.random() < 0.5))
         spec['csc'] = {'indptr': ip, 'indices': ix, 'data': enc_arr(np.array(d, dtype=M.dtype))}
     if form == 'rows':
-        ip, ix, d = raw_csc(rng, M, messy=bool(rng.random() < 0.3))
+        ip, ix, d = raw_csc(rng, M, messy=bool(plain and rng.random() < 0.3))
         d = np.array(d, dtype=M.dtype)
         spec['rows'] = {'idx': [ix[ip[j]:ip[j + 1]] for j in range(M.shape[1])],
                         'val': [enc_arr(d[ip[j]:ip[j + 1]]) for j in range(M.shape[1])],
                         'fmt': str(rng.choice(['csr', 'csr', 'csc', 'csr_array']))}
     spec['grid_arg'] = bool(grid and (form not in ('fields', 'tuple') or rng.random() < 0.5))
+    if form in ('fields', 'tuple') and coltypes is not None and (spec['grid_arg'] or not grid) and rng.random() < 0.3:
+        spec['nested'] = True      # modes as plain Python lists of Python numbers
     return spec
 
 
@@ -327,34 +383,38 @@ def make_grid(npix):
     return hcipy.CartesianGrid(hcipy.UnstructuredCoords([xs, ys]))
 
 
-def build_base(spec, M, grid):
-    """Returns (ModeBasis, model line)."""
+def build_base(spec, M, grid, coltypes=None):
+    """Returns (ModeBasis, model line).  `coltypes`: dtype of each mode (None = the dtype of M)."""
     import hcipy
     name, form = spec['name'], spec['form']
     g = grid if spec.get('grid_arg') else None
     npix, nmodes = M.shape
+    ct = list(coltypes) if coltypes is not None else [M.dtype.name] * nmodes
+    Mp = cast(M, promoted(ct, M.dtype).name)
     if form == 'dense':
-        return hcipy.ModeBasis(M.copy(), g), 'C14 new %s dense %d %d %s' % (name, npix, nmodes, fmt_mat(M))
+        return hcipy.ModeBasis(Mp.copy(), g), 'C14 new %s dense %d %d %s' % (name, npix, nmodes, fmt_mat(M))
     if form == 'csc':
         c = spec['csc']
-        d = dec_arr(c['data'])
+        d = cast(dec_arr(c['data']), Mp.dtype.name)
         T = sp.csc_matrix((d, np.array(c['indices'], dtype=np.int32), np.array(c['indptr'], dtype=np.int32)), shape=(npix, nmodes))
         return hcipy.ModeBasis(T, g), 'C14 new %s csc %d %d %s %s %s' % (name, npix, nmodes, fmt_ints(c['indptr']), fmt_ints(c['indices']), fmt_vec(d))
     if form in ('csr', 'coo', 'csc_array'):
-        T = sp.csr_matrix(M) if form == 'csr' else (sp.coo_matrix(M) if form == 'coo' else sp.csc_array(M))
+        T = sp.csr_matrix(Mp) if form == 'csr' else (sp.coo_matrix(Mp) if form == 'coo' else sp.csc_array(Mp))
         ip, ix, d = raw_csc(None, M, messy=False)
         return hcipy.ModeBasis(T, g), 'C14 new %s csc %d %d %s %s %s' % (name, npix, nmodes, fmt_ints(ip), fmt_ints(ix), fmt_vec(np.array(d, dtype=M.dtype)))
     if form in ('fields', 'tuple'):
-        cols = [M[:, j].copy() for j in range(nmodes)]
-        if grid is not None:
+        cols = [cast(M[:, j], ct[j]) for j in range(nmodes)]
+        if spec.get('nested'):
+            cols = [c.tolist() for c in cols]
+        elif grid is not None:
             cols = [hcipy.Field(c, grid) for c in cols]
         arg = cols if form == 'fields' else tuple(cols)
         return hcipy.ModeBasis(arg, g), 'C14 new %s fields %d %s' % (name, npix, fmt_mat(M.T))
     if form == 'rows':
         r = spec['rows']
         rows = []
-        for idx, val in zip(r['idx'], r['val']):
-            v = dec_arr(val)
+        for j, (idx, val) in enumerate(zip(r['idx'], r['val'])):
+            v = cast(dec_arr(val), ct[j])
             row = sp.csr_matrix((v, np.array(idx, dtype=np.int32), np.array([0, len(idx)], dtype=np.int32)), shape=(1, npix))
             rows.append(row if r['fmt'] == 'csr' else (row.tocsc() if r['fmt'] == 'csc' else sp.csr_array(row)))
         line = 'C14 new %s rows %d %s %s' % (name, npix, ';'.join(fmt_ints(i) for i in r['idx']),
@@ -401,6 +461,11 @@ class BasisRun:
         mats = {k: dec_arr(v) for k, v in case['mats'].items()}
         npix = case['npix']
         grid = make_grid(npix) if case['grid'] else None
+        coltypes = case.get('coltypes') or {}
+        for k, ct in coltypes.items():
+            if len(ct) >= 2:
+                self.count('dtypes:' + ('homogeneous' if len(set(ct)) == 1 else
+                                        ('mixed, first mode narrowest' if TYPES.index(ct[0]) == min(TYPES.index(t) for t in ct) and ct[0] != max(ct, key=TYPES.index) else 'mixed, first mode not narrowest')))
         obj, ref = {}, {}      # name -> ModeBasis ; name -> (reference matrix, sparse?)
         for spec in case['bases']:
             M = mats[spec['mat']]
@@ -408,7 +473,7 @@ class BasisRun:
             sparse_expected = form in ('csc', 'csr', 'coo', 'csc_array', 'rows')
             self.count('form:' + form)
             try:
-                b, line = build_base(spec, M, grid)
+                b, line = build_base(spec, M, grid, coltypes.get(spec['mat']))
             except Exception as e:  # noqa
                 cls = form + ('-nogrid' if not spec.get('grid_arg') else '')
                 self.fail('constructor-raises ' + cls, 'ModeBasis(<%s form of a %dx%d matrix>, grid=%s) raised %s: %s' % (
@@ -553,7 +618,8 @@ class BasisRun:
             sf = 'sparse' if sa else 'dense'
             try:
                 r = hcipy.ModeBasis(a.transformation_matrix.copy(), a.grid)
-                r.append(v if grid is None else hcipy.Field(v, grid))
+                vv = cast(v, op.get('vt', v.dtype.name))
+                r.append(vv if grid is None else hcipy.Field(vv, grid))
             except Exception as e:  # noqa
                 self.fail('append-raises ' + sf, 'append(mode) on a %s basis raised %s: %s' % (sf, type(e).__name__, str(e)[:80]))
                 return
@@ -955,6 +1021,21 @@ def directed_cases():
                     'bases': [{'name': 'a0', 'mat': 'A', 'form': 'dense', 'grid_arg': False},
                               {'name': 'a1', 'mat': 'A', 'form': 'csr', 'grid_arg': False}],
                     'ops': [{'op': 'lstsq', 'src': 'a0', 'c': _m(c)}, {'op': 'lstsq', 'src': 'a1', 'c': _m(c)}]})
+    # modes of different dtypes, the first one the narrowest (real then complex; mask / integer then float)
+    Z = np.array([[1, 1j, 0.5], [1, -1, 0.25], [1, -1j, 0], [1, 1, -0.75]], dtype=complex)
+    I = np.array([[1, 2, 0.5], [0, -3, 0.25], [1, 0, -1.5], [0, 4, 0.75]])
+    for Mx, ct in ((Z, ['float64', 'complex128', 'float64']), (I, ['bool', 'int64', 'float64']), (I, ['int8', 'int64', 'float32'])):
+        bases = [{'name': 'a0', 'mat': 'A', 'form': 'dense', 'grid_arg': False},
+                 {'name': 'a1', 'mat': 'A', 'form': 'csr', 'grid_arg': False},
+                 {'name': 'a2', 'mat': 'A', 'form': 'fields', 'grid_arg': False},
+                 {'name': 'a3', 'mat': 'A', 'form': 'tuple', 'grid_arg': False, 'nested': True},
+                 make_base_spec(np.random.default_rng(0), 'a4', 'A', Mx, 'rows', False, ct)]
+        ops = []
+        for nme in ('a0', 'a1', 'a2', 'a3', 'a4'):
+            ops += [{'op': 'lc', 'src': nme, 'c': _m([1, 2, 4])}, {'op': 'get', 'src': nme, 'dst': nme + 'g', 'ix': {'kind': 'int', 'k': 1, 'np': False}},
+                    {'op': 'todense', 'src': nme, 'dst': nme + 'd'}, {'op': 'lstsq', 'src': nme, 'c': _m([1, -2, 4])}]
+        out.append({'type': 'basis', 'npix': 4, 'grid': False, 'style': 'directed', 'mats': {'A': enc_arr(Mx), 'B': enc_arr(Mx[:, :1])},
+                    'coltypes': {'A': ct, 'B': ct[:1]}, 'bases': bases, 'ops': ops})
     # zero pixels
     out.append({'type': 'basis', 'npix': 0, 'grid': False, 'style': 'directed',
                 'mats': {'A': enc_arr(np.zeros((0, 2))), 'B': enc_arr(np.zeros((0, 1)))},
@@ -982,7 +1063,7 @@ def execute(case):
 
 def run(ctx):
     ctx.rule = ('basis cases: one or two random dyadic matrices (npix 0..6 [thorough: ..10], 0..5 modes, densities 0/0.3/0.6/1, '
-                '30% complex), each built through 4-7 of the input forms dense / raw CSC triple (explicit zeros, duplicate entries) / '
+                '30% complex; in 45% of the cases every mode has its own dtype bool/int8/int64/float32/float64/complex128, mostly narrowest first, lists also as nested Python lists), each built through 4-7 of the input forms dense / raw CSC triple (explicit zeros, duplicate entries) / '
                 'CSR / COO / csc_array / list of fields / tuple of fields / list of sparse rows, with and without a grid, followed by 6-12 random '
                 'operations (linear_combination, __getitem__ with int / slice / index list / mask incl. negative, out-of-range, '
                 'length-one selections, __add__, extend, append, to_sparse, to_dense, coefficients_for of A·c and of general y when '
